@@ -241,6 +241,8 @@ def enabled(st, seed_i, hist, ctx):
     ops = []
     if SEEDS[seed_i][1] == "S7" and hist:
         return ops          # the long split seed is explored to depth 1 (every operation on every side and target)
+    if SEEDS[seed_i][1] == "S6" and len(hist) >= 2:
+        return ops          # the 30-note content is explored to depth 2 in both tiers
     if not hist:
         ops.append([1, 0, "check_derivation"])
     for side in (0, 1):
